@@ -189,7 +189,7 @@ def Fraction_half():
 
 # functions whose meaning the analyser knows (so a remainder built from them is a definite difference, not an unknown)
 BASE_FNS = {'ln', 'abs', 'len', 'LRc', 'OS', 'CHI', 'at', 'argmin', 'argsort', 'arange', 'exp10', 'max', 'min',
-            'rev', 'argmax', 'sort', 'slice', 'cumsum', 'invperm', 'spectral', 'int', 'floor', 'ceil', 'nanmax', 'nanmin', 'any', 'all', 'power', 'exp'}
+            'rev', 'argmax', 'sort', 'slice', 'cumsum', 'invperm', 'spectral', 'int', 'floor', 'ceil', 'nanmax', 'nanmin', 'any', 'all', 'power', 'exp', 'first', 'last'}
 
 
 def compare(ctx, rule, instance, where, code, ref_poly, ref_dims=None, facts=None, vocab=None, fns=None, findings=(), detail_ok=''):
